@@ -148,13 +148,13 @@ func TestC17_Search(t *testing.T) {
 		if len(toks) == 0 || dbKind != "good" {
 			toks = append(toks, "list", "directory", "copy", "files", "delete")
 		}
-		nSearch := rapid.IntRange(1, 3).Draw(t, "searches")
+		nSearch := rapid.IntRange(1, 4).Draw(t, "searches")
 		prevHist := histEntries(h.History())
 		anyResult := false
 		var labels []string
 		for s := 0; s < nSearch; s++ {
 			var argsQ []string
-			qkind := rapid.SampledFrom([]string{"vocab", "vocab", "vocab", "typo", "recovery", "padded", "split", "rejected-meta", "rejected-blank", "control", "long", "unicode", "repeat"}).Draw(t, "qkind")
+			qkind := rapid.SampledFrom([]string{"vocab", "vocab", "vocab", "typo", "recovery", "padded", "split", "rejected-meta", "rejected-blank", "control", "long", "unicode", "repeat", "repeat-recased", "repeat-recased"}).Draw(t, "qkind")
 			w := rapid.SampledFrom(toks)
 			switch qkind {
 			case "vocab":
@@ -177,6 +177,17 @@ func TestC17_Search(t *testing.T) {
 				argsQ = []string{strings.Repeat(w.Draw(t, "w")+" ", rapid.IntRange(80, 400).Draw(t, "rep"))}
 			case "unicode":
 				argsQ = []string{gen.TextOf(gen.UWord(true), 1, 3).Draw(t, "uq") + " " + w.Draw(t, "w")}
+			case "repeat-recased": // the previous query in another letter case: a different query, a new entry
+				if len(prevHist) > 0 {
+					pq := prevHist[len(prevHist)-1].Query
+					if up := strings.ToUpper(pq); up != pq {
+						argsQ = []string{up}
+					} else {
+						argsQ = []string{strings.ToLower(pq)}
+					}
+				} else {
+					argsQ = []string{w.Draw(t, "w")}
+				}
 			default: // repeat the previous query of this history when there is one
 				if len(prevHist) > 0 {
 					argsQ = []string{prevHist[len(prevHist)-1].Query}
